@@ -23,7 +23,22 @@ BASE = ('@charset "utf-8";\n/*c1*/\n@import "x.css" tv "nm";\n@namespace p "http
         '@page :first { margin: 1cm; @top-left { content: "x" } }\n'
         '@font-face { font-family: "F"; src: url(f.ttf) }\n@unknown x y;\n'
         'p|a, b.c > d:hover { color: red !important; background: url(i.png) no-repeat rgb(1,2,3); '
-        'width: calc(1px + 2px); top: 1px; font-family: f(1) }\n')
+        'width: calc(1px + 2px); top: 1px; font-family: f(1) }\n'
+        '@x\\5c 5c\\20 31 a;\n')
+
+
+def esc_at(text, i):
+    """the same text with the character at i written as a CSS escape (also a backslash or blank of an escape)"""
+    return text[:i] + "\\%x " % ord(text[i]) + text[i + 1:]
+
+
+def esc_levels(text, i, n):
+    """text, escape of char i, escape of that escape's backslash, ... (n levels)"""
+    out = [text]
+    for _ in range(n):
+        text = esc_at(text, i)
+        out.append(text)
+    return out
 
 
 def fetcher(url):
@@ -48,8 +63,8 @@ KINDS = {
     "comment": (lambda s: _r(s, "CSSComment"), {"cssText": ["/*x*/"]}),
     "import": (lambda s: _r(s, "CSSImportRule"), {"cssText": ['@import "y.css";', '@import url(y.css) print "n";'],
                                          "href": ["y.css"], "media": ["print", "tv, print"], "name": ["n2"]}),
-    "namespace": (lambda s: _r(s, "CSSNamespaceRule"), {"cssText": ['@namespace p "http://u";', '@namespace q "http://u";'],
-                                            "prefix": ["q"], "namespaceURI": ["http://u"]}),
+    "namespace": (lambda s: _r(s, "CSSNamespaceRule"), {"cssText": ['@namespace p "http://u";', '@namespace q "http://u";', '@namespace s "http://u";'],
+                                            "prefix": ["q", "s"], "namespaceURI": ["http://u"]}),
     "namespace2": (lambda s: _r(s, "CSSNamespaceRule", 1), {"cssText": ['@namespace q "http://v";'], "prefix": ["r"],
                                                              "namespaceURI": ["http://v"]}),
     "media": (lambda s: _r(s, "CSSMediaRule"), {"cssText": ["@media tv {b{y:2}}", '@media print "n" {b{y:2} @page{margin:0} /*c*/}',
@@ -66,6 +81,7 @@ KINDS = {
                                                      "margin": ["@top-right"], "style": ["y:1"]}),
     "fontface": (lambda s: _r(s, "CSSFontFaceRule"), {"cssText": ['@font-face{font-family:"G";src:url(g.ttf)}'], "style": ['font-family:"G"']}),
     "unknown": (lambda s: _r(s, "CSSUnknownRule"), {"cssText": ["@unknown z;", "@unknown {a(b)[c]}"]}),
+    "unknown_esc": (lambda s: _r(s, "CSSUnknownRule", 1), {"cssText": [x + " b;" for x in esc_levels("@x1", 2, 3)]}),
     "style": (lambda s: _r(s, "CSSStyleRule"), {"cssText": ["b{y:2}", "p|b, c > d {y:2;z:3 !important}"],
                                         "selectorText": ["b", "p|b, c:not(.d)", "a[b=c]::after"], "style": ["y:2; z:3"]}),
     "selectorlist": (lambda s: _r(s, "CSSStyleRule").selectorList, {"selectorText": ["b", "p|b, c > d", "a, b, c"]}),
@@ -183,6 +199,15 @@ def mutations(text, rng, nrand):
                 m = k + 1 + (i % (len(tk) - k - 1))
                 out.append("".join(toks[:i] + [tk[:m] + "\\" + ("%x " % ord(tk[m]) if tk[m] in "0123456789abcdefABCDEF" else tk[m])
                                                + tk[m + 1:]] + toks[i + 1:]))
+    # escapes of any character, also of the backslash / blank of an escape (escape of an escape), and a double escape
+    # (escaped backslash followed by hex digits) inside every identifier
+    for i, ch in enumerate(text):
+        if ch == "\\" or (len(text) <= 24 and (ch.isalnum() or ch == " ") and (nrand > 20 or i % 2 == 0)):
+            out.append(esc_at(text, i))
+    for i, tk in enumerate(toks):
+        if tk[:1].isalpha() or (tk[:1] == "@" and len(tk) > 1):
+            out.append("".join(toks[:i] + [tk + "\\5c 31 "] + toks[i + 1:]))
+            out.append("".join(toks[:i] + [tk[:2] + "\\5c 5c\\20 31 " + tk[2:]] + toks[i + 1:]))
     for j in JUNK:
         out.append(text + j)
         if nrand > 20:                 # thorough tier only
@@ -201,6 +226,31 @@ def mutations(text, rng, nrand):
                 t[i] = rng.choice(JUNK)
         out.append("".join(t))
     return out
+
+
+REJECT_TEXTS = ["zz|a", "zz|a{x:1}", "@media tv {zz|a{x:1}}", "", "a{x:1} junk", "@page {@top-left{x:1;!}}", "y: ;", "print,",
+                "@x\\5c 31 b;", "@unknown }", "!foo", "hex"]
+
+
+def gen_histories(ctx, thorough):
+    """two-step histories on one sheet: an ACCEPTED assignment that changes derived / cached state of the sheet
+    (namespace prefix or URI, encoding, import, media, keyword spelling ...), then a rejected assignment anywhere"""
+    rng = ctx.rng
+    pres = []
+    for k2 in ("namespace", "namespace2", "charset", "sheet", "import", "media", "page", "unknown_esc", "unknown", "style"):
+        for a2, vs in KINDS[k2][1].items():
+            if k2 == "sheet" and a2 == "cssText":
+                continue
+            for v in vs:
+                pres.append([k2, a2, v])
+    cases = []
+    for kind, (_, attrs) in KINDS.items():
+        for attr, valids in attrs.items():
+            for pre in pres:
+                for t in REJECT_TEXTS + [valids[0] + " }x"]:
+                    if thorough or rng.random() < 0.1:
+                        cases.append((kind, attr, t, 0, 1, [pre]))
+    return cases
 
 
 def gen_cases(ctx, thorough):
@@ -236,7 +286,7 @@ def gen_cases(ctx, thorough):
             # readonly objects: every assignment must be rejected and change nothing
             for t in valids[:2] + ["", "junk{"]:
                 cases.append((kind, attr, t, 1))
-    return cases
+    return cases + gen_histories(ctx, thorough)
 
 
 # ----------------------------------------------------------------------------- implementation side
@@ -293,6 +343,13 @@ def public_fp(sheet, obj, attrs):
             fp["sheet.encoding"] = sheet.encoding
         except Exception as e:  # noqa
             fp["sheet.encoding"] = "<%s>" % type(e).__name__
+        for nm, f in (("sheet.variables", lambda: sorted((k, sheet.variables[k]) for k in sheet.variables.keys())),
+                      ("sheet.namespaces", lambda: sorted(sheet.namespaces.items())),
+                      ("sheet.rules", lambda: [(r.type, r.cssText, r.wellformed) for r in sheet.cssRules])):
+            try:
+                fp[nm] = str(f())
+            except Exception as e:  # noqa
+                fp[nm] = "<%s: %s>" % (type(e).__name__, e)
     names = set(attrs) | {"wellformed", "valid", "cssText", "selectorText", "mediaText", "specificity", "length", "element"}
     for k in type(obj).__mro__:
         for n, d in vars(k).items():
@@ -651,6 +708,18 @@ def run_case_(case):
     except Exception as e:  # noqa
         return {"error": "build failed: %r" % (e,)}
     attrs = attrs_of(kind)
+    pre = case[5] if len(case) > 5 else None
+    if pre:
+        css_parser.log.raiseExceptions = True
+        for k2, a2, t2 in pre:
+            try:
+                setattr(KINDS[k2][0](sheet), a2, pyvalue(t2))
+            except Exception as e:  # noqa -- the first step must be accepted
+                return {"skipped": "history step rejected: %s" % type(e).__name__}
+        try:
+            obj = KINDS[kind][0](sheet)
+        except Exception as e:  # noqa
+            return {"skipped": "object gone after the first step"}
     res = {"script": script_name(obj, attr)}
     css_parser.log.raiseExceptions = True
     try:
@@ -680,7 +749,7 @@ def run_case_(case):
     if res["pub_changed"]:
         k = res["pub_changed"][0]
         res["before_after"] = [str(pub0.get(k))[:200], str(pub1.get(k))[:200]]
-    if raised == 1 and not ro and (len(case) < 5 or case[4]):
+    if raised == 1 and not ro and not pre and (len(case) < 5 or case[4]):
         res.update(lenient_pair(kind, attr, text, attrs))
     res["tbl"] = _t_report()
     return res
@@ -707,7 +776,8 @@ def model_summaries(ctx):
 
 
 def describe(case, r):
-    return "%s.%s = %r%s" % (case[0], case[1], case[2], " (readonly)" if case[3] else "")
+    pre = (" after " + "; ".join("%s.%s = %r" % tuple(x) for x in case[5])) if len(case) > 5 and case[5] else ""
+    return "%s.%s = %r%s%s" % (case[0], case[1], case[2], " (readonly)" if case[3] else "", pre)
 
 
 def sig_of(case, r):
@@ -718,12 +788,18 @@ def check_case(ctx, case, r, summ, stats):
     """oracle + correspondence for one executed case; returns None or a correspondence complaint"""
     if "error" in r:
         return "harness: " + r["error"]
+    if "skipped" in r:
+        stats["histories_skipped"] = stats.get("histories_skipped", 0) + 1
+        return None
+    if len(case) > 5 and case[5]:
+        stats["histories"] = stats.get("histories", 0) + 1
     stats["raised" if r["raised"] == 1 else ("crashed" if r["raised"] == 2 else "accepted")] += 1
     if r["raised"] == 1:
         stats["nontrivial"].add((case[0], case[1], r["exc"], r["where"]))
         if r["pub_changed"]:
             ctx.violation("rejected assignment changed the object",
                           {"kind": case[0], "attr": case[1], "text": case[2], "readonly": case[3], "exception": r["exc"],
+                           "pre": case[5] if len(case) > 5 else None,
                            "message": r["msg"], "changed": r["pub_changed"], "before_after": r.get("before_after")},
                           sig_text=sig_of(case, r))
     if case[3] and r["raised"] == 0 and r["script"] and summ.get(r["script"], {}).get("can_raise") and \
@@ -827,7 +903,7 @@ def run(ctx):
     for f in ctx.findings:
         if f.get("status") == "open":
             w = f["witness"]
-            case = (w["kind"], w["attr"], w["text"], w.get("readonly", 0))
+            case = (w["kind"], w["attr"], w["text"], w.get("readonly", 0), 1, w.get("pre"))
             r = run_case(case)
             if r.get("raised") == 1 and r.get("pub_changed"):
                 ctx.violation("rejected assignment changed the object", dict(w, changed=r["pub_changed"]),
@@ -883,6 +959,7 @@ def run(ctx):
                 "texts of all other kinds, undeclared prefix, trailing content); non-trivial = distinct (kind, attribute, "
                 "DOM exception class, raising function) among rejected assignments" % (len(KINDS) + len(DETACHED)),
         "rejected": stats["raised"], "accepted": stats["accepted"], "crashed_non_dom": stats["crashed"],
+        "two_step_histories": stats.get("histories", 0), "histories_first_step_rejected": stats.get("histories_skipped", 0),
         "lenient_reassignments": stats["lenient"], "lenient_with_error_logged": stats["lenient_logged"], "lenient_rejected_by_own_setter": stats["lenient_own_error"],
         "samples": samples,
         "disagreements_checked": stats["compared"],
@@ -899,7 +976,7 @@ def replay(ctx, path):
     ws = [v["witness"] for v in rep.get("violations", [])] or ([rep["witness"]] if "witness" in rep else [])
     bad = 0
     for w in ws:
-        case = (w["kind"], w["attr"], w["text"], w.get("readonly", 0))
+        case = (w["kind"], w["attr"], w["text"], w.get("readonly", 0), 1, w.get("pre"))
         r = run_case(case)
         fails = r.get("raised") == 1 and bool(r.get("pub_changed"))
         lfails = bool(r.get("l_bad"))
